@@ -10,7 +10,7 @@ PROP = "C11"
 META = {
     "technique": "Coq proof: inductive invariants over all schedules of the readMore wake-up protocol (reader / event loop / peer close / local close / session close / deadline timer with an abstract clock), stability of an enabled wake-up, Flush's retry bound as a total function over every queue behaviour, AcceptStream/initProtocol state machines; tie: timed scenarios on real session pairs, outcome set computed from the model by exhaustive interleaving",
     "level_text": "PARTIAL. Proved for every schedule: C11_no_lost_notify, C11_wake_or_helper (a parked reader whose releasing event happened has a ready select branch or the thread that readies it is at that step), C11_wake_stable (a ready branch stays ready until taken), C11_timeout_not_early, C11_timer_sound (no stale timer value), C11_enough, C11_flush_bounded (<= c_flushRetryBound rounds whatever the queue does), C11_session_waiters. Observed on the real code (not proved): every scenario's call returned within 4 s of its releasing event with the right error class and no timeout was early.",
-    "level_note": "Outside the model (Go runtime / kernel): that an enabled goroutine is scheduled, timer accuracy, epoll delivery to the single dispatcher goroutine. ASSUMPTIONS: sendCh (4096 slots) not full at the two unbounded sends `s.sendCh <- ...` in wakeUpPeer / hotRestart slow paths; user callbacks (OnShutdown, OnNewStream) return; one reader per stream, deadlines set by the reading goroutine between calls; non-callback mode.",
+    "level_note": "Outside the model (Go runtime / kernel): that an enabled goroutine is scheduled, timer accuracy, epoll delivery to the single dispatcher goroutine. One full statement is REFUTED on the faithful model and reproduced on the real code: C11_wakeup_never_blocks (the unbounded `s.sendCh <- ...` of wakeUpPeer/hotRestart blocks Flush for ever once sendCh is full behind a peer that stopped consuming; partial: blocks only then, C11_stuck_until_peer_resumes) (C11_close_releases - a read parked inside OnData is released by a Stream.Close that was deferred because a callback is in progress - was refuted before the repair of stream.go Close and is now proved; regression scenarios ondata-deferred-close-*). ASSUMPTIONS: user callbacks (OnShutdown, OnNewStream) return; one reader per stream, deadlines set by the reading goroutine between calls.",
 }
 
 # scenario kind -> (prefix events, helper events) in terms of Model/Wait.v; %d = size / deadline
@@ -25,13 +25,23 @@ KINDS = {
     "session-close": ("[]", "[SClose; LLoad; LCas; LClean; LNotify]"),
     "peer-session-close": ("[]", "[SClose; LLoad; LCas; LClean; LNotify]"),
     "peer-death": ("[]", "[SClose; LLoad; LCas; LClean; LNotify]"),
+    # a read for 8 bytes parked inside OnData with 4 bytes there (w_min = 8, see case_to_coq)
+    "ondata-local-session-close": ("[EAdd 4; EFin]", "[SClose; LLoad; LCas; LClean; LNotify]"),
+    "ondata-peer-session-close": ("[EAdd 4; EFin]", "[SClose; LLoad; LCas; LClean; LNotify]"),
+    "ondata-peer-death": ("[EAdd 4; EFin]", "[SClose; LLoad; LCas; LClean; LNotify]"),
+    "ondata-deferred-close-local-session-close": ("[EAdd 4; EFin]", "[LDefer1; LDefer2; SClose; LLoad; LCas; LClean; LNotify]"),
+    "ondata-deferred-close-peer-session-close": ("[EAdd 4; EFin]", "[LDefer1; LDefer2; SClose; LLoad; LCas; LClean; LNotify]"),
+    "ondata-deferred-close-peer-death": ("[EAdd 4; EFin]", "[LDefer1; LDefer2; SClose; LLoad; LCas; LClean; LNotify]"),
+    "ondata-deferred-close-only": ("[EAdd 4; EFin]", "[LDefer1; LDefer2]"),
+    "ondata-deferred-close-peer-close": ("[EAdd 4; EFin]", "[LDefer1; LDefer2; PClose1; PClose2]"),
 }
 
 
 def case_to_coq(c):
     pre, helpers = KINDS[c["kind"]]
     sub = {"p": "%d%%nat" % max(1, c["param"]), "z": "%d" % c["param"]}
-    return "{| w_prefix := %s; w_min := 1%%nat; w_helpers := %s; w_obs := %d |}" % (pre % sub, helpers % sub, c["class"])
+    wmin = 8 if c["kind"].startswith("ondata") else 1
+    return "{| w_prefix := %s; w_min := %d%%nat; w_helpers := %s; w_obs := %d |}" % (pre % sub, wmin, helpers % sub, c["class"])
 
 
 def eval_cases(cases, tag):
@@ -77,7 +87,15 @@ def run_harness(reps, seed, tag):
     return cases, err, out
 
 
+SIG_SENDCH = "C11:flush-blocks-forever-when-sendch-full"
+SIG_DEFERRED = "C11:read-in-ondata-not-released-by-deferred-stream-close"
+
+
 def signature(msg):
+    if msg.startswith("flush-sendch-full: Flush blocks for ever"):
+        return SIG_SENDCH
+    if msg.startswith("ondata-deferred-close: a read parked inside OnData is not released"):
+        return SIG_DEFERRED
     kind, _, rest = msg.partition(":")
     rest = re.sub(r"\d+(\.\d+)?(ms|µs|us|s)?", "#", rest.lower())
     return "C11:" + kind.strip() + ":" + re.sub(r"[^a-z#]+", "-", rest)[:60].strip("-")
@@ -109,6 +127,7 @@ def check(run):
             run.add_oracle_failure(signature(m), m, brief(c))
     if cases and skipped > len(cases) // 3:
         run.add_corr_break("T: %d of %d scenarios could not be set up (machine overloaded?)" % (skipped, len(cases)))
+    # class 8 (the call did not return) is an oracle failure; the model has no blocked interleaving for these kinds
     modelled = [c for c in usable if c["kind"] in KINDS and c["class"] != 8]
     if modelled:
         try:
@@ -143,10 +162,10 @@ def check(run):
     })
     run.assumptions += [
         "an enabled goroutine is eventually scheduled; timers fire close to their time; epoll delivers to the dispatcher goroutine (Go runtime / kernel; observed, not proved)",
-        "sendCh (4096 slots) is not full at the unbounded sends `s.sendCh <- sendReady{...}` of wakeUpPeer and hotRestart slow paths (session.go 628, 708): a full sendCh would block Flush/Close for ever",
+        "the send hand-off is modelled with one fast-path thread; hotRestart's slow-path send is the same statement as wakeUpPeer's",
         "user callbacks (ListenCallback.OnNewStream / OnShutdown, StreamCallbacks) return: the single dispatcher goroutine of the process runs them inline",
         "one reader per stream; SetReadDeadline is called by the reading goroutine between two calls (a deadline set while a Read is parked does not re-arm its timer)",
-        "the wait protocols are modelled for the non-callback mode",
+        "callback mode is modelled only as far as the deferred Stream.Close (state marked half-closed without notification) is concerned",
     ]
 
     def search():
